@@ -272,8 +272,28 @@ fn mutate(frame: &[u8], second: &[u8], ver: u8, rng: &mut SplitMix) -> (Vec<u8>,
         s3::length_fields(frame).into_iter().enumerate().map(|(i, (o, w))| (o, w, if i == 0 { 0 } else { 2 })).collect()
     };
     let mut out = frame.to_vec();
-    let pick = rng.below(16);
+    let pick = rng.below(18);
     match pick {
+        16 | 17 => {
+            // a complete but shorter frame: keep the first c body bytes and make Remaining Length say so; half of the
+            // time the last byte gets its continuation bit set (a length / varint field cut off by the frame end)
+            if let Split::Frame { hdr, rl, .. } = wire::split(frame) {
+                if rl >= 2 {
+                    let c = 1 + rng.below(u64::from(rl) - 1) as usize;
+                    let mut short = vec![frame[0]];
+                    wire::put_varint(&mut short, c as u32);
+                    short.extend_from_slice(&frame[hdr..hdr + c]);
+                    let contbit = rng.chance(1, 2);
+                    if contbit {
+                        let l = short.len();
+                        short[l - 1] |= 0x80;
+                    }
+                    return (short, if contbit { "shorten-frame-contbit" } else { "shorten-frame" });
+                }
+            }
+            out[0] ^= 0x0F;
+            (out, "flags")
+        }
         0..=4 if !fields.is_empty() => {
             // set a length field to 0 / -1 / +1 / +2 / max / random
             let (o, w, k) = fields[rng.below(fields.len() as u64) as usize];
